@@ -222,6 +222,9 @@ def check_outputs(script, outputs):
     for i, j in script.equal:
         if outputs[i] != outputs[j]:
             bad.append(f"lines {i} `{script[i][:80]}` and {j} `{script[j][:80]}` differ: `{outputs[i]}` vs `{outputs[j]}`")
+    for i, j in getattr(script, "pool", []):
+        if outputs[i] != "ok " + outputs[j]:
+            bad.append(f"line {i} `{script[i][:100]}`: expected `ok {outputs[j]}`, got `{outputs[i]}`")
     for i, o in enumerate(outputs):
         if o in ("PANIC", "bad-op") and script.expect.get(i) != o:
             bad.append(f"line {i} `{script[i][:100]}`: {o}")
@@ -507,6 +510,29 @@ def write_script(rng, n):
     return s
 
 
+def writev_script(rng, shape=None):
+    """io::Write::write_vectored: the slices' bytes, in order, exactly once; `H updwv` answers `ok <total>` and leaves the state of `H upd`"""
+    mode = _mode(rng)
+    s = IoScript(tags=("write_vectored",))
+    s.op(f"H new a {mode}", "ok")
+    s.op(f"H new b {mode}", "ok")
+    total = 0
+    for _ in range(rng.choice([1, 2, 3])):
+        lens = shape or rng.choice([[16, 4096], [1, 1, 1, 2000], [0, 5, 0, 1024, 7], [1024, 1], [1023, 1025], [1000, 24, 1024], [64] * 20,
+                                    [rng.randrange(0, 1500) for _ in range(rng.randrange(1, 7))], [3, 70000], [70000, 3, 2048]])
+        extra = rng.choice([0, 0, 1, 1500])
+        n = sum(lens) + extra
+        sd = _seed(rng)
+        s.op(f"H updwv a {','.join(map(str, lens))} pat {n} {sd}", f"ok {n}")
+        s.op(f"H upd b pat {n} {sd}", "ok")
+        total += n
+        s.op("H cnt a", str(total))
+    i = s.op("H fin a")
+    j = s.op("H fin b")
+    s.equal.append((i, j))
+    return s
+
+
 def file_scripts(rng, tmpdir, fifo=True):
     out = []
     os.makedirs(tmpdir, exist_ok=True)
@@ -536,6 +562,22 @@ def file_scripts(rng, tmpdir, fifo=True):
             f.write(b"\x5a\xa5not zero")
     s_big = compare_script(rng, big, ("file", "large-sparse"), pools=True)
     out.append(s_big)
+    # many independent hashers driven from the workers of one small rayon pool (a worker waiting in a join picks up another
+    # hasher's job): every one must finish, with the digest of the plain update
+    mid = os.path.join(tmpdir, "pool_4m.bin")
+    sd = _seed(rng)
+    with open(mid, "wb") as f:
+        f.write(lcg_bytes(1 << 20, sd) * 4)
+    sp = IoScript(tags=("file", "pool-workers"))
+    sp.op("H new c hash", "ok")
+    sp.op(f"H updfile c {mid}", "ok")
+    fc = sp.op("H fin c")
+    sp.op("H new d hash", "ok")
+    sp.op(f"H updfile d {big}", "ok")
+    fd = sp.op("H fin d")
+    sp.pool = [(sp.op(f"D poolmmap 4 48 {mid}"), fc), (sp.op(f"D poolmmap 3 24 {mid}"), fc), (sp.op(f"D poolmmap 2 6 {big}"), fd),
+               (sp.op(f"D poolmmap 1 3 {mid}"), fc)]
+    out.append(sp)
     # pseudo files whose contents are stable within one process
     for p in ["/proc/self/cmdline", "/proc/version"]:
         if os.path.exists(p):
